@@ -154,7 +154,7 @@ fn run<T: Flt>(src: &mut Src, obs: &mut Obs) -> Result<(), Fail> {
             let tol = ULPS * 2.0 * T::U * m;
             let want = exact_line(x1, y1, x2, y2, q);
             let got = res[k][l].f();
-            let (ok, ne) = within(got, &want, tol);
+            let (ok, ne) = within(got, &want, tol + T::TINY);
             obs.asserts += 1;
             obs.err(ne);
             if !ok {
